@@ -140,12 +140,43 @@ class FactBase:
         if len(ks) == 1:
             return self.bodies[ks[0]]
         if not ks:
+            moved = self._moved(path)
+            if moved is not None:
+                return moved
             raise CheckerError(f"anchor missing: no body with path `{path}`")
         raise CheckerError(f"anchor ambiguous: {len(ks)} bodies with path `{path}`: {ks}")
 
     def body_opt(self, path):
         ks = self.by_path.get(path, [])
+        if not ks:
+            return self._moved(path)
         return self.bodies[ks[0]] if len(ks) == 1 else None
+
+    def _moved(self, path):
+        """An anchor that is gone under its path but exists exactly once, in the same crate, under the same name with the same owner
+        (`Type::method`, or a free function that became an associated function or moved to a sibling module): the function was moved,
+        not removed. Recorded in self.relocated."""
+        if "<" in path or " as " in path:
+            return None
+        segs = path.split("::")
+        crate, name = segs[0], segs[-1]
+        owner = segs[-2] if len(segs) >= 3 and segs[-2][:1].isupper() else None
+        cands = []
+        for b in self.bodies.values():
+            if b["crate"] != crate or b["kind"] not in ("Fn", "AssocFn") or b.get("exp"):
+                continue
+            bs = b["path"].split("::")
+            if bs[-1] != name or b["path"] in getattr(self, "_known_paths", ()):
+                continue
+            if owner is not None and not (len(bs) >= 2 and (bs[-2] == owner or bs[-2].endswith(owner + ">"))):
+                continue
+            cands.append(b)
+        if len(cands) == 1:
+            if not hasattr(self, "relocated"):
+                self.relocated = {}
+            self.relocated[path] = cands[0]["path"]
+            return cands[0]
+        return None
 
     def bodies_matching(self, regex):
         r = re.compile(regex)
